@@ -229,6 +229,7 @@ class Sim(object):
         self.stalled = {}        # tid -> until
         self.stall_plan = {}     # role -> [(thread-local step, duration)]
         self.stalls_fired = 0
+        self.in_event = False
         self._gap_is_skip = True
         self._line_countdown = self._draw_line_gap()
         self.listeners_on_exc = []
@@ -311,7 +312,11 @@ class Sim(object):
             ev = heapq.heappop(heap)
             cb = ev[2]
             if cb is not None:
-                cb()
+                self.in_event = True
+                try:
+                    cb()
+                finally:
+                    self.in_event = False
 
     def time(self):
         return self.epoch + self.now
@@ -367,7 +372,11 @@ class Sim(object):
                     self.now = ev[0]
                 cb = ev[2]
                 if cb is not None:
-                    cb()
+                    self.in_event = True
+                    try:
+                        cb()
+                    finally:
+                        self.in_event = False
             else:
                 self.now = nxt_stall
             if self.now >= self.horizon and not self.halted:
@@ -483,6 +492,8 @@ class Sim(object):
         t = self.cur
         if t is None:
             return
+        if self.in_event:
+            raise RuntimeError("harness bug: simulator primitive %r used from an event callback" % (kind,))
         t.lines_since_prim = 0
         t.steps += 1
         self.sync_steps += 1
@@ -513,6 +524,8 @@ class Sim(object):
         Returns True if it timed out."""
         if self.killed:
             raise SimStop()
+        if self.in_event:
+            raise RuntimeError("harness bug: blocking primitive used from an event callback")
         t = self.cur
         t.lines_since_prim = 0
         t.state = BLOCKED
